@@ -50,7 +50,7 @@ class StlPastifier(LtlPastifier, StlAstVisitor):
         for spec in ast.specs:
             self.to_default_unit(spec)
         # next / s_next look one sampling period ahead
-        self.sample = Fraction(ast.sampling_period * ast.U[ast.sampling_period_unit]) / ast.U[ast.unit]
+        self.sample = Fraction(str(ast.sampling_period)) * ast.U[ast.sampling_period_unit] / ast.U[ast.unit]
         h = StlHorizon(self.sample)
         horizons = dict()
         for spec in ast.specs:
